@@ -389,6 +389,8 @@ func coqAction(a Action) string {
 		return fmt.Sprintf("FinishWait %d", a.Q)
 	case "Elapse":
 		return fmt.Sprintf("Elapse %d", a.Q)
+	case "Idle":
+		return fmt.Sprintf("Tick %d", IdleCron)
 	}
 	return "Stop"
 }
